@@ -205,11 +205,6 @@ func c11R1(r *Report) {
 		return
 	}
 	r.Fn(mr)
-	ws := writesOf(mr, "protocol.Request")
-	if len(ws) == 0 {
-		r.Fail("R1", "maybeRequest/write(Request)", mr.Pos(), "maybeRequest no longer writes a Request the rule can identify")
-		return
-	}
 	var dq *ssa.Call
 	allInstrs(mr, func(in ssa.Instruction) {
 		if c, ok := in.(*ssa.Call); ok && isCallNamed(c, "peer/requests", "Dequeue") {
@@ -220,7 +215,7 @@ func c11R1(r *Report) {
 		r.Fail("R1", "maybeRequest/Dequeue", mr.Pos(), "maybeRequest no longer dequeues from the request queue")
 		return
 	}
-	// loop head: the guard `!isCongested && Queue() > 0`: start exploration from the call to Requested() that precedes the dequeue
+	idx := extractOf(dq, 1)
 	// exploration starts at the head of the loop that contains the dequeue: everything tested in the same
 	// iteration counts, whether before or after the dequeue
 	var loopHead *ssa.BasicBlock
@@ -231,12 +226,8 @@ func c11R1(r *Report) {
 			}
 		}
 	}
-	for _, w := range ws {
-		sl := litOf(w.Call.Args[1])
-		okT, x := tripleOK(sl)
-		idx := extractOf(dq, 1)
-		r.Check(okT && x == idx, "R1", "maybeRequest/Request-fields", w.Pos(), "the Request's index, begin and length are fromChunk/chunkSize of the dequeued block", "the Request's (index, begin, length) are not fromChunk(index) and chunkSize(index) of the block that was dequeued")
-		target := func(in ssa.Instruction) bool { return in == ssa.Instruction(w) }
+	// the requirements, for the function that holds the tests and the value that names the dequeued block there
+	reqsFor := func(f *ssa.Function, idx ssa.Value) []edgeReq {
 		pieceOf := func(v ssa.Value) bool { // int(i) where i = fromChunk(index)#0
 			ex, ok := stripIntConv(v).(*ssa.Extract)
 			if !ok || ex.Index != 0 {
@@ -247,7 +238,7 @@ func c11R1(r *Report) {
 		}
 		// the piece of the dequeued block, as a value that can be followed into a helper (mayRequestPiece(peer, i))
 		var pieceVal ssa.Value
-		allInstrs(mr, func(in ssa.Instruction) {
+		allInstrs(f, func(in ssa.Instruction) {
 			if fc, ok := in.(*ssa.Call); ok && isCallNamed(fc, "peer", "fromChunk") && len(fc.Call.Args) > 1 && fc.Call.Args[1] == idx {
 				pieceVal = extractOf(fc, 0)
 			}
@@ -255,7 +246,7 @@ func c11R1(r *Report) {
 		isPiece := func(sj []ssa.Value, v ssa.Value) bool {
 			return pieceOf(v) || (len(sj) > 0 && sj[0] != nil && stripIntConv(v) == sj[0])
 		}
-		reqs := []edgeReq{
+		return []edgeReq{
 			{Name: "peer.bitmap.Get(piece) == true", ViaHelper: true, Subj: []ssa.Value{pieceVal}, MatchS: func(sj []ssa.Value, cond ssa.Value, pol bool) bool {
 				c, ok := cond.(*ssa.Call)
 				if !ok || !pol {
@@ -298,22 +289,82 @@ func c11R1(r *Report) {
 				return fv == rqF && op == token.LSS
 			}},
 		}
-		var missing []string
-		reached := 0
+	}
+	// paths of this iteration of maybeRequest's loop up to one instruction
+	mrPaths := func(to ssa.Instruction) ([]string, int) {
+		target := func(in ssa.Instruction) bool { return in == to }
 		if loopHead != nil {
-			missing, reached = pathsMissingAt(loopHead, 0, -1, target, nil, reqs, nil)
-		} else {
-			missing, reached = pathsMissing(dq, -1, target, nil, reqs)
+			return pathsMissingAt(loopHead, 0, -1, target, nil, reqsFor(mr, idx), nil)
 		}
+		return pathsMissing(dq, -1, target, nil, reqsFor(mr, idx))
+	}
+	verdict := func(w *ssa.Call, missing []string, reached int) {
 		if reached == 0 {
 			r.Undecided("R1", "maybeRequest/send-time-recheck", w.Pos(), "the Request write is not reachable from the dequeue")
-			continue
+			return
 		}
 		if len(missing) == 0 {
 			r.Ok("R1", "maybeRequest/send-time-recheck", w.Pos(), "every path from the dequeue to the Request re-checks advertisement, choke/fast state and the pipeline bound")
 		} else {
 			r.Fail("R1", "maybeRequest/send-time-recheck", w.Pos(), "a path from the dequeue to the Request write does not pass: %v — a request waiting in the queue is sent although the peer retracted the piece / choked us / its queue is full", missing)
 		}
+	}
+	ws := writesOf(mr, "protocol.Request")
+	for _, w := range ws {
+		okT, x := tripleOK(litOf(w.Call.Args[1]))
+		r.Check(okT && x == idx, "R1", "maybeRequest/Request-fields", w.Pos(), "the Request's index, begin and length are fromChunk/chunkSize of the dequeued block", "the Request's (index, begin, length) are not fromChunk(index) and chunkSize(index) of the block that was dequeued")
+		missing, reached := mrPaths(w)
+		verdict(w, missing, reached)
+	}
+	// the write may live in a helper of the package that is handed the dequeued block (sendRequest(peer, index)): a
+	// requirement is met when every path of the iteration up to the call meets it, or every path from the helper's
+	// entry to its write does (with the helper's parameter standing for the dequeued block)
+	helpers := 0
+	allInstrs(mr, func(in ssa.Instruction) {
+		c, ok := in.(*ssa.Call)
+		if !ok {
+			return
+		}
+		h := c.Call.StaticCallee()
+		if h == nil || h.Pkg != mr.Pkg || len(h.Blocks) == 0 || c.Call.IsInvoke() || len(h.Params) != len(c.Call.Args) {
+			return
+		}
+		k := -1
+		for i, a := range c.Call.Args {
+			if a == idx {
+				k = i
+			}
+		}
+		hws := writesOf(h, "protocol.Request")
+		if k < 0 || len(hws) == 0 {
+			return
+		}
+		r.Fn(h)
+		idxH := ssa.Value(h.Params[k])
+		missMr, reachedMr := mrPaths(c)
+		for _, w := range hws {
+			helpers++
+			okT, x := tripleOK(litOf(w.Call.Args[1]))
+			r.Check(okT && x == idxH, "R1", "maybeRequest/Request-fields", w.Pos(), "the Request's index, begin and length are fromChunk/chunkSize of the dequeued block", "the Request's (index, begin, length) are not fromChunk(index) and chunkSize(index) of the block that was dequeued")
+			target := func(in ssa.Instruction) bool { return in == ssa.Instruction(w) }
+			missH, reachedH := pathsMissingAt(h.Blocks[0], 0, -1, target, nil, reqsFor(h, idxH), nil)
+			var missing []string
+			for _, m := range missMr {
+				for _, m2 := range missH {
+					if m == m2 {
+						missing = append(missing, m)
+					}
+				}
+			}
+			reached := reachedMr
+			if reachedH == 0 {
+				reached = 0
+			}
+			verdict(w, missing, reached)
+		}
+	})
+	if len(ws) == 0 && helpers == 0 {
+		r.Fail("R1", "maybeRequest/write(Request)", mr.Pos(), "maybeRequest no longer writes a Request the rule can identify")
 	}
 }
 
